@@ -48,11 +48,20 @@ def _cli(cmd, text, timeout):
 
 
 def _work(job):
-    idx, text, timeout, want_model = job
+    idx, text, timeout, want_model, int_text = job
     t0 = time.time()
     res = 'unknown'
     model = None
     backend = 'z3py-%s' % z3.get_version_string()
+    if int_text:
+        # abstraction to linear integer arithmetic: only 'unsat' is trusted
+        tq = max(5, int(timeout / 4))
+        for bname, cmd in (('z3-new-5.1.0', ['z3-new', '-T:%d' % tq]),
+                           ('cvc5-1.0.3', ['/usr/bin/cvc5', '-q', '--tlimit=%d' % (tq * 1000)]),
+                           ('z3-4.8.12', ['/usr/bin/z3', '-T:%d' % tq])):
+            r, dt = _cli(cmd, int_text, tq)
+            if r == 'unsat':
+                return idx, 'unsat', bname + '-intblast', time.time() - t0, None
     try:
         s = z3.Solver()
         s.set('timeout', int(timeout * 1000))
@@ -93,7 +102,15 @@ def discharge(obs, timeout=60, jobs=None, observe=None, progress=None):
     work = []
     for i, o in pending:
         text = to_smt2(o.pc, o.goal, observe if observe is not None else o.info.get('observe'))
-        work.append((i, text, o.info.get('timeout', timeout), True))
+        int_text = None
+        if o.info.get('logic') == 'int':
+            from . import intblast
+            try:
+                asm, g = intblast.translate(o.pc, o.goal)
+                int_text = to_smt2(asm, g)
+            except Exception as e:   # translation is best effort
+                int_text = None
+        work.append((i, text, o.info.get('timeout', timeout), True, int_text))
         o.smt2 = text
     if not work:
         return
